@@ -100,12 +100,14 @@ Record case := mk {
   c_check_failed : bool
 }.
 
-(* the property on the observation: the history followed the discipline => check found no error *)
-Definition check_C15 (c : case) : bool := implb (ok_trace empty (c_ops c)) (negb (c_check_failed c)).
+(* the property on the observation: every engine history is produced by restic itself (commands and
+   crash cuts only), so the real check must not report errors *)
+Definition check_C15 (c : case) : bool := negb (c_check_failed c).
 
-(* codes: 0 ok; 1 model <> implementation (the recorded operations break the discipline the model
-   assumes, or replaying them does not give the files that are present); 2 check --read-data reports
-   errors on a repository produced by a disciplined history *)
+(* codes: 0 ok; 2 check --read-data reports errors on a repository produced by restic commands
+   (with or without crash cuts); 1 model <> implementation (the recorded operations break the
+   discipline the model assumes, replaying them does not give the files that are present, or the
+   model predicts errors) *)
 Definition check_case (c : case) : nat :=
   if negb (check_C15 c) then 2%nat
   else if negb (ok_trace empty (c_ops c)) then 1%nat
